@@ -205,6 +205,26 @@ fn lifetime(input: &[u8]) -> PResult<()> {
     delimited(spacelike, value((), tag("'")), rust_name).parse(input)
 }
 
+#[cfg(feature = "verif-hooks")]
+impl Template {
+    pub(crate) fn verif_parts(
+        &self,
+    ) -> (&[String], &str, &[String], &[TemplateExpression]) {
+        (&self.preamble, &self.type_args, &self.args, &self.body)
+    }
+}
+
+#[cfg(feature = "verif-hooks")]
+pub(crate) fn verif_parse_with(which: &str, buf: &[u8]) -> Option<String> {
+    use crate::verif_hooks::{str_result, unit_result};
+    let n = buf.len();
+    Some(match which {
+        "type_expression" => unit_result(n, type_expression(buf)),
+        "formal_argument" => str_result(n, formal_argument(buf)),
+        _ => return None,
+    })
+}
+
 #[cfg(test)]
 mod test {
     use super::type_expression;
